@@ -75,6 +75,12 @@ Dev_KindMissingFromLess(e) ==
     /\ LET keep == SelectSeq(e.rules, LAMBDA r : ~((r.f = "x" /\ e.kindx \in MissingKinds) \/
                                                     (r.f = "y" /\ e.kindy \in MissingKinds)))
        IN keep # e.rules /\ RangeOK([e EXCEPT !.rules = keep])
+\* (fixed) the page bounds were computed as int: a size from 2^63 up ("everything on
+\* one page") became negative and the first page came back empty.  e.huge > 0: the
+\* real size was one of the huge ones, e.size is a stand-in larger than the collection
+Dev_HugeSizeEmptyPage(e) ==
+    /\ e.ev = "range" /\ e.ret = "ok" /\ ~RangeOK(e) /\ e.huge > 0
+    /\ \A i \in 1..Len(e.runs) : \A k \in 1..Len(e.runs[i].pages) : e.runs[i].pages[k] = <<>>
 \* a wrapped struct returns an untyped nil for a nil pointer: v2.(*T) panics
 Dev_WrappedNilPanicsInLess(e) ==
     /\ e.ev = "range" /\ e.ret = "panic" /\ e.impl \in {"wrap", "mixed"}
